@@ -154,6 +154,7 @@ type Shards struct {
 	requires string // e.g. "From Emitter Require Import Lib.Base Model.Mqtt Check.C16."
 	caseType string // e.g. "C16.case"
 	checkFn  string // e.g. "C16.check"
+	HypFn    string // optional: boolean on cases = the hypotheses of the property theorem; counted per shard
 	PerShard int
 	n        int
 	cur      *bufio.Writer
@@ -197,6 +198,9 @@ func (s *Shards) close() {
 		return
 	}
 	fmt.Fprintf(s.cur, "\n].\nDefinition R := Eval vm_compute in failing %s cases.\nPrint R.\nDefinition Cnt := Eval vm_compute in len cases.\nPrint Cnt.\n", s.checkFn)
+	if s.HypFn != "" {
+		fmt.Fprintf(s.cur, "Definition Hyp := Eval vm_compute in len (filter %s cases).\nPrint Hyp.\n", s.HypFn)
+	}
 	s.cur.Flush()
 	s.curFile.Close()
 	s.cur = nil
